@@ -484,6 +484,22 @@ def retime(index, rep):
     plain = [st for st in walk_no_nested(f) if isinstance(st, ast.Assign) and any(isinstance(t, ast.Subscript) and norm_src(t.value) in (arr, param)
                                                                                for t in st.targets)]
     rep.check(not plain, rule, "fill:no-plain-store", "an element of the array is overwritten (not a transfer): the total changes", loc=loc(PARAMS, f))
+    # every position of the array can donate and receive: an index range walked backwards goes down to position 0, one walked forwards
+    # starts at position 0 and runs to the end (a range that stops one short leaves month 0 - or the last month - out of the re-timing)
+    bad_rng = []
+    n_rng = 0
+    for n_ in ast.walk(f):
+        it_ = n_.iter if isinstance(n_, (ast.For, ast.comprehension)) else None
+        if isinstance(it_, ast.Call) and dotted(it_.func) == "range" and any("len(" in norm_src(a_) for a_ in it_.args):
+            n_rng += 1
+            a_ = [norm_src(x).replace(" ", "") for x in it_.args]
+            okr = (len(a_) == 3 and a_[2] == "-1" and a_[1] == "-1" and a_[0].endswith("-1")) or (len(a_) == 1) or (len(a_) == 2 and a_[0] == "0") \
+                or (len(a_) == 3 and a_[2] == "1" and a_[0] == "0")
+            if not okr:
+                bad_rng.append(norm_src(it_))
+    rep.check(not bad_rng, rule, "fill:every-position-visited",
+              f"an index range of the fill does not cover every position of the array ({'; '.join(bad_rng)}): a surplus (or shortfall) in the month "
+              "left out is never used, so the re-timed series can stay below the no-feed level", loc=loc(PARAMS, f))
     # one step of the fill, evaluated: deficit index I with value R, candidate donor J with value D. Whatever the shape of the guards
     # (one test or two, `continue` or nested if), on every path that changes the array: J != I, D > 0, the pair's sum is conserved,
     # the donor does not go below zero and the deficit is not over-filled, and something is moved.
